@@ -33,7 +33,10 @@ type Plan struct {
 	MissRule     string `json:"missRule"`
 	KeyDecode    string `json:"keyDecode"`
 	IntRule      string `json:"intRule"`
-	Replay       int    `json:"replay"` // maximal histories replayed on the real code (0 = all)
+	EonOf        string `json:"eonOf"`    // chain plans: "recompute" (as found) | "event"
+	EmptyKey     string `json:"emptyKey"` // chain plans: "deliver" (as found) | "skip"
+	MaxChain     int    `json:"maxChain"` // chain plans: contract events per chain (0 = not a chain plan)
+	Replay       int    `json:"replay"`   // maximal histories replayed on the real code (0 = all)
 	// design pass: exhaustive without emission on larger bounds (0 = none)
 	DesignEv  int `json:"designEv"`
 	DesignMsg int `json:"designMsg"`
@@ -57,6 +60,8 @@ func (p Plan) norm() Plan {
 	p.MissRule = dflt(p.MissRule, "reject")
 	p.KeyDecode = dflt(p.KeyDecode, "asfound")
 	p.IntRule = dflt(p.IntRule, "trunc")
+	p.EonOf = dflt(p.EonOf, "recompute")
+	p.EmptyKey = dflt(p.EmptyKey, "deliver")
 	if p.NN == 0 {
 		p.NN = 1
 	}
@@ -87,6 +92,10 @@ func (p Plan) withMode(mode string) Plan {
 			p.KeyDecode = v
 		case "intRule":
 			p.IntRule = v
+		case "eonOf":
+			p.EonOf = v
+		case "emptyKey":
+			p.EmptyKey = v
 		}
 	}
 	return p
@@ -110,15 +119,16 @@ func tlaBool(b bool) string {
 // AsFoundAllowed: the observation classes the AS-FOUND design is known to show (each is reported
 // as an OBSERVATION when the real code shows it); with repaired alternatives the set shrinks.
 func (p Plan) allowed() []string {
-	a := []string{"A2_AcceptRevoked", "A5_StorageDiverged", "A5_VerdictDiverged"}
+	a := []string{"A2_AcceptRevoked", "A2_Sound", "A5_StorageDiverged", "A5_VerdictDiverged"}
 	if p.MissRule == "reject" {
 		a = append(a, "A2_StartupReject")
 	}
 	if p.KeyDecode == "asfound" {
-		a = append(a, "A2_Sound", "A4_UndecodableKeyStored")
+		a = append(a, "A2_ForgedKeysAccepted", "A4_UndecodableKeyStored")
 	}
+	a = append(a, "A4_IntTruncated") // int64(activation block) stays
 	if p.IntRule == "trunc" {
-		a = append(a, "A4_IntTruncated", "A2_TruncatedThresholdAccept")
+		a = append(a, "A2_TruncatedThresholdAccept")
 	}
 	return a
 }
@@ -128,8 +138,8 @@ func (p Plan) baseDefs() string {
 }
 
 func (p Plan) baseConsts() string {
-	return fmt.Sprintf(" AllEons <- cAllEons\n HugeEons <- cHugeEons\n N = %d\n T = %d\n MaxKeys = %d\n StoreRule = %q\n KeyStoreRule = %q\n MissRule = %q\n KeyDecode = %q\n IntRule = %q\n NN = %d\n",
-		N, T, MaxKeys, p.StoreRule, p.KeyStoreRule, p.MissRule, p.KeyDecode, p.IntRule, p.NN)
+	return fmt.Sprintf(" AllEons <- cAllEons\n HugeEons <- cHugeEons\n N = %d\n T = %d\n MaxKeys = %d\n StoreRule = %q\n KeyStoreRule = %q\n MissRule = %q\n KeyDecode = %q\n IntRule = %q\n EonOf = %q\n EmptyKey = %q\n",
+		N, T, MaxKeys, p.StoreRule, p.KeyStoreRule, p.MissRule, p.KeyDecode, p.IntRule, p.EonOf, p.EmptyKey)
 }
 
 func modName(prefix, name string) string {
@@ -145,7 +155,7 @@ func (p Plan) mcFiles(mode string) (string, map[string][]byte, string) {
 		ev, msg = p.DesignEv, p.DesignMsg
 	}
 	cfg := "CONSTANTS\n" + p.baseConsts() +
-		fmt.Sprintf(" EvSet = %q\n MsgSet = %q\n MaxEv = %d\n MaxMsg = %d\n Emit = %s\n Allowed <- cAllowed\n", p.EvSet, p.MsgSet, ev, msg, tlaBool(mode == "emit"))
+		fmt.Sprintf(" NN = %d\n EvSet = %q\n MsgSet = %q\n MaxEv = %d\n MaxMsg = %d\n Emit = %s\n Allowed <- cAllowed\n", p.NN, p.EvSet, p.MsgSet, ev, msg, tlaBool(mode == "emit"))
 	cfg += "SPECIFICATION Spec\nINVARIANT DesignCex\n"
 	if mode == "emit" {
 		cfg += "INVARIANT EmitInv\n"
@@ -157,7 +167,7 @@ func (p Plan) mcFiles(mode string) (string, map[string][]byte, string) {
 func (p Plan) trFiles(trace []byte) (string, map[string][]byte, string) {
 	mod := modName("TRgen_accessnode_", p.Name)
 	body := fmt.Sprintf("---- MODULE %s ----\nEXTENDS AccessNodeTrace\n%s====\n", mod, p.baseDefs())
-	cfg := "CONSTANTS\n" + p.baseConsts() + " TraceFile = \"trace.ndjson\"\nSPECIFICATION TSpec\nINVARIANT Done\nCHECK_DEADLOCK FALSE\n"
+	cfg := "CONSTANTS\n" + p.baseConsts() + fmt.Sprintf(" NN = %d\n", p.NN) + " TraceFile = \"trace.ndjson\"\nSPECIFICATION TSpec\nINVARIANT Done\nCHECK_DEADLOCK FALSE\n"
 	return mod, map[string][]byte{mod + ".tla": []byte(body), "trace.ndjson": trace}, cfg
 }
 
